@@ -7,6 +7,7 @@ __all__ = ["Imputer"]
 from sktime.transformations.base import _SeriesToSeriesTransformer
 from sktime.utils.validation.series import check_series
 from sktime.forecasting.trend import PolynomialTrendForecaster
+from sklearn.base import clone
 from sklearn.utils import check_random_state
 
 import numpy as np
@@ -109,7 +110,7 @@ class Imputer(_SeriesToSeriesTransformer):
             Z = Z.fillna(method=self.method)
         elif self.method in ["drift", "forecaster"]:
             if self.method == "forecaster":
-                forecaster = self.forecaster
+                forecaster = clone(self.forecaster)
             else:
                 forecaster = PolynomialTrendForecaster(degree=1)
             # in-sample forecasting horizon
